@@ -48,6 +48,12 @@ NO_PANIC = [
 
 # Command-line front end (C20): argument parsing exits the process with a usage message instead of returning (outside the
 # property's quantifier "for every readable input file"); file I/O returns Results that main handles with expect (audited).
+NO_PANIC += ["std::iter::Iterator::peekable", "std::iter::Peekable::peek", "std::iter::Peekable::next", "std::iter::Peekable::", "std::option::Option::copied",
+             "std::iter::Iterator::copied", "std::iter::Iterator::by_ref", "std::iter::Iterator::count", "std::iter::Iterator::fold", "std::iter::Iterator::for_each",
+             "std::iter::Iterator::last", "std::iter::Iterator::nth", "std::iter::Iterator::sum", "std::iter::Iterator::take_while", "std::iter::Iterator::skip_while",
+             "std::iter::Iterator::filter_map", "std::iter::Iterator::find_map", "std::iter::Iterator::rposition", "std::iter::Iterator::max", "std::iter::Iterator::min",
+             "std::iter::Iterator::peekable", "std::iter::Iterator::fuse", "std::iter::Iterator::flatten", "std::iter::Iterator::chain", "std::iter::once", "std::iter::empty",
+             "std::iter::DoubleEndedIterator::", "std::iter::ExactSizeIterator::len", "std::ops::FnMut::call_mut", "std::ops::FnOnce::call_once"]
 NO_PANIC += ["std::string::String::as_str", "std::str::traits::eq", "std::vec::Vec::as_slice", "std::string::String::as_bytes", "std::str::eq",
              "std::cmp::PartialEq::eq", "std::vec::Vec::iter", "std::vec::Vec::as_ptr", "std::slice::first", "std::slice::get"]
 NO_PANIC += ["clap::App::new", "clap::App::version", "clap::App::about", "clap::App::arg", "clap::App::get_matches", "clap::Arg::with_name",
